@@ -1020,8 +1020,9 @@ def gen_copy_case(rng, i):
         case['hseed'] = rng.randrange(1000)
         if case['entry'] == 'manual2':
             case['dst2'] = rng.choice(['file', 'fileblob'] if not blobsrc else ['fileblob'])
-    elif r < 0.68 and not blobsrc and dst in ('file', 'fileblob', 'cfg-file'):
+    elif r < 0.68 and not blobsrc:
         case['entry'] = 'basecopy'
+        case['dst'] = dst = rng.choice(['file', 'fileblob', 'cfg-file'])
     elif r < 0.76 and dst in BLOB_DST:
         case['entry'] = 'blobcopy'
     if dst in HEX_KINDS and blobsrc and dst == 'hexfile':
@@ -1129,6 +1130,27 @@ def judge_recover(raw, txns, oview, dmg, obs):
     """direct oracle. returns ('ok'|'excluded:<why>'|'violation', signature, what)"""
     img = apply_damage(raw, dmg)
     ds, de = damage_range(raw, dmg)
+    opts = dmg.get('opts') or {}
+    if opts.get('noforce'):
+        # an existing output file and no -f: the tool must refuse and leave that file alone
+        if obs['status'] == 'refused' and obs.get('untouched'):
+            return 'ok', None, None
+        if obs['status'] == 'notfs':
+            return 'ok', None, None
+        return 'violation', 'C17:recover-overwrites-without-force', \
+            'an output file existed and force was not given: status %s, file untouched: %s' % (
+                obs['status'], obs.get('untouched'))
+    if obs['status'] == 'done' and opts.get('again'):
+        if obs.get('again_error'):
+            return 'violation', 'C17:recover-again-raised', \
+                'recovering / copying the recovered file raised ' + obs['again_error']
+        if obs.get('dump2') != obs['dump'] or obs.get('img2') != obs['img']:
+            return 'violation', 'C17:recover-not-idempotent', \
+                'recover(recover(x)) differs from recover(x): %r vs %r' % (
+                    [t[0] for t in obs.get('dump2', [])], [t[0] for t in obs['dump']])
+        if obs.get('dump3') != obs['dump']:
+            return 'violation', 'C17:recovered-file-copy-differs', \
+                'copyTransactionsFrom(recovered file) differs from the recovered file'
     if obs['status'] == 'timeout':
         # classified by WHERE the run hangs (stack of the confirming re-run), not by the input
         where = obs.get('where') or []
@@ -1160,8 +1182,14 @@ def judge_recover(raw, txns, oview, dmg, obs):
     # (2) all other output transactions are input transactions, unchanged, in order
     j = npre
     bad = None
+    def same(o, g):
+        if o == g:
+            return True
+        # -p: a transaction with a bad record is output with the records before it (status kept or 'p')
+        return bool(opts.get('partial')) and o[0] == g[0] and o[2:5] == g[2:5] and g[1] in (o[1], 'p') \
+            and 0 < len(g[5]) < len(o[5]) and o[5][:len(g[5])] == g[5]
     for g in rest:
-        while j < len(oview) and oview[j] != g:
+        while j < len(oview) and not same(oview[j], g):
             j += 1
         if j >= len(oview):
             bad = g
@@ -1172,7 +1200,8 @@ def judge_recover(raw, txns, oview, dmg, obs):
     # a transaction of the input with a strict prefix of its records: without -p a transaction with a
     # bad record must be skipped, whatever the rest of the image looks like
     for o in oview[npre:]:
-        if o[:5] == bad[:5] and len(bad[5]) < len(o[5]) and o[5][:len(bad[5])] == bad[5]:
+        if o[:5] == bad[:5] and len(bad[5]) < len(o[5]) and o[5][:len(bad[5])] == bad[5] \
+                and not opts.get('partial'):
             return 'violation', 'C17:recover-partial-transaction', \
                 'output transaction %s has %d of the %d records of the input transaction' % (
                     bad[0], len(bad[5]), len(o[5]))
@@ -1470,7 +1499,7 @@ def field_classes(txns):
     return fc
 
 
-def gen_damages(rng, raw, txns, ntrunc, nwin, thorough_all=False):
+def gen_damages(rng, raw, txns, ntrunc, nwin, thorough_all=False, nvar=5):
     dmgs = [dict(kind='none')]
     n = len(raw)
     # truncations: all within the last transaction + sampled / all
@@ -1500,7 +1529,9 @@ def gen_damages(rng, raw, txns, ntrunc, nwin, thorough_all=False):
             ln = rng.choice([1, 3, 8, 23, 42, 64, 200])
             cname = 'random'
         ln = max(1, min(ln, n - off))
-        fk = rng.choice(['zero', 'ff', 'rand', 'rand', 'dots', 'inc', 'dec'])
+        fk = rng.choice(['zero', 'ff', 'rand', 'rand', 'dots', 'inc', 'dec', 'bit', 'bit', 'bit'])
+        if fk == 'bit':
+            ln = 1                                  # a single flipped bit
         old = raw[off:off + ln]
         if fk == 'zero':
             fill = b'\0' * ln
@@ -1512,6 +1543,8 @@ def gen_damages(rng, raw, txns, ntrunc, nwin, thorough_all=False):
             fill = old[:-1] + bytes([(old[-1] + 1) & 255])
         elif fk == 'dec':
             fill = old[:-1] + bytes([(old[-1] - 1) & 255])
+        elif fk == 'bit':
+            fill = bytes([old[0] ^ (1 << rng.randrange(8))])
         else:
             fill = bytes(rng.randrange(256) for _ in range(ln))
         if fill == old:
@@ -1548,7 +1581,23 @@ def gen_damages(rng, raw, txns, ntrunc, nwin, thorough_all=False):
                 # turn a data record into a back-pointer record pointing at itself
                 dmgs.append(dict(kind='win', off=r['pos'] + 34, fill=(p64(0) + p64(r['pos'])).hex(),
                                  cls='dh.plen', fk='craft', crafted='backcycle'))
-    return dmgs
+    # the tool's options and re-use of its output, on the undamaged image and on sampled damages
+    base = [d for d in dmgs if d['kind'] != 'none']
+    pick = lambda k: [dict(d) for d in rng.sample(base, min(k, len(base)))]
+    var = [dict(kind='none', opts=o) for o in (dict(force=True), dict(noforce=True), dict(pack=True),
+                                                dict(again=True), dict(verbose=2), dict(partial=True))]
+    for d in pick(nvar):
+        d['opts'] = dict(again=True)
+        var.append(d)
+    recdmg = [d for d in base if d.get('cls', '').startswith(('dh.', 'backptr', 'pickle'))] or base
+    for d in rng.sample(recdmg, min(nvar, len(recdmg))):
+        var.append(dict(d, opts=dict(partial=True)))
+    # (-P only on the undamaged image, with a pack time before its first transaction: what packing
+    #  removes is C07's matter, and these synthetic histories have no root object to pack from)
+    for d, o in zip(pick(2), (dict(force=True), dict(verbose=2))):
+        d['opts'] = o
+        var.append(d)
+    return dmgs + var
 
 
 def dmg_line(dmg):
@@ -1614,17 +1663,33 @@ def load_corpus():
 
 
 # =================================================================== main
-def run_copy_part(ck, cases):
+def run_copy_part(ck, cases, nproc=None):
+    # every case runs in a forked child under a watchdog: a copy that blocks is an observation
+    # (C17:copy-hangs) with that case as the failing input, not a hang of the check
+    nproc = nproc or min(16, os.cpu_count() or 4)
+    raw_results = run_recover_jobs([(i, c) for i, c in enumerate(cases)], ck.tmp, min(nproc, max(1, len(cases))),
+                                   watchdog=25.0, max_timeouts=2, mode='copy')
     results = []
     lines = []
     spans = []
-    for case in cases:
-        res = run_copy_case(case, ck.tmp)
+    for i, case in enumerate(cases):
+        res = raw_results[i]
+        if res.get('phase') == 'harness':
+            raise InfraError('copy runner failed: %s (case %s)' % (res.get('error'), json.dumps(case)[:300]))
+        if res.get('status') == 'timeout':
+            res = dict(error='timeout', phase='hang', where=res.get('where'))
+        elif res.get('status') == 'skipped':
+            res = dict(error='skipped', phase='build')
+        elif str(res.get('status', '')).startswith('crash:worker-died'):
+            res = dict(error='InterpreterCrash: the worker process died', phase='copy')
         results.append(res)
         if res.get('error') and res.get('phase') == 'build':
             ck.count('copy:source-build-raised')
             ck.count('copy:source-build-raised:' + res['error'].split(':')[0])
-        if res.get('src_dump') is not None and not res.get('error'):
+        if res.get('src_dump') is not None and not res.get('error') and \
+                max([len(r[2] or '') for t in res['src_dump'] for r in t[6]] + [0]) < 80000:
+            # (records beyond 40 KB are judged by the oracle only: the interpreted driver's hex
+            #  parser is not tail recursive)
             ls = copy_model_lines(case, res)
             spans.append((len(lines), len(ls)))
             lines += ls
@@ -1641,6 +1706,13 @@ def run_copy_part(ck, cases):
     for case, res, span in zip(cases, results, spans):
         kind = '%s->%s%s' % (case['prog']['kind'], case['dst'], ' range' if case.get('range') else '')
         ck.count('copy:' + kind)
+        ck.count('copy:entry:' + case.get('entry', 'method'))
+        ck.count('copy:src:' + case['prog']['kind'])
+        ck.count('copy:dst:' + case['dst'])
+        if case['prog'].get('tail'):
+            ck.count('copy:source-with-voted-tail')
+        if case.get('corpus'):
+            ck.count('corpus')
         if any(sum(1 for op in st.get('ops', []) if op[0] == 'u') >= 2 for st in case['prog']['steps']):
             ck.count('copy:source-with-multi-undo-transaction')
         nt = nontrivial_copy(res)
@@ -1654,16 +1726,17 @@ def run_copy_part(ck, cases):
                                         'back' if r[3] is not None else 'full'))
         v = judge_copy(case, res)
         if v:
-            small = shrink_copy(ck, case, v[0]) if len(ck.violations) < 2 else case
+            small = shrink_copy(ck, case, v[0]) if len(ck.violations) < 2 and v[0] != 'C17:copy-hangs' else case
             ck.violation(v[0], v[1], small)
             continue
         if span is None:
             continue
         last = mout[span[0] + span[1] - 1]
-        exp_dump = res['dst_dump']
+        ck.count('copy:model-compared')
+        exp_dump = res.get('dst_dump_raw') or res['dst_dump']
         want = 'ok ' + model_dump_str(exp_dump) + ' img=%d:%s' % res['dst_img']
         got = last
-        if case['dst'] in ('fileblob', 'blobwrap') and not case.get('range'):
+        if ' blobs=' in last:
             # blobs the model expects in the destination vs the real destination's blob files
             got, _, mbl = last.partition(' blobs=')
             if res.get('both_blobs'):
@@ -1702,8 +1775,13 @@ def run_recover_part(ck, files, nproc):
     """files: list of dict(prog, raw, undos, dmgs)"""
     jobs = []
     for fi, f in enumerate(files):
+        first = parse_file(f['raw'])[:1]
         for di, dmg in enumerate(f['dmgs']):
-            jobs.append(((fi, di), apply_damage(f['raw'], dmg)))
+            opts = dict(dmg.get('opts') or {})
+            if opts.get('pack'):
+                # -P with a pack time before the first transaction: nothing to pack, same output
+                opts['pack'] = pack_time(u64(first[0]['tid']) - GAP) if first else 1.0
+            jobs.append(((fi, di), (apply_damage(f['raw'], dmg), opts) if opts else apply_damage(f['raw'], dmg)))
     results = run_recover_jobs(jobs, ck.tmp, nproc)
     # model: one driver process per chunk of files
     model = {}
@@ -1717,7 +1795,8 @@ def run_recover_part(ck, files, nproc):
             lines.append('file ' + f['raw'].hex())
             keys.append(None)
             for di, dmg in enumerate(f['dmgs']):
-                if f.get('model_all') or dmg.get('model', True):
+                o = dmg.get('opts') or {}
+                if (f.get('model_all') or dmg.get('model', True)) and not (o.get('partial') or o.get('noforce')):
                     lines.append(dmg_line(dmg))
                     keys.append((fi, di))
         out = run_driver('Recover', lines, timeout=1500)
@@ -1747,6 +1826,8 @@ def run_recover_part(ck, files, nproc):
             ck.case(key, nt, sample=dict(part='recover', size=len(raw), txns=len(txns), dmg=dmg,
                                          recovered=len(obs.get('dump', []))) if nt and di % 7 == 0 else None)
             ck.count('recover:' + dmg['kind'] + (':' + dmg.get('cls', '') if dmg['kind'] == 'win' else ''))
+            for o in (dmg.get('opts') or {}):
+                ck.count('recover:option:' + o)
             ck.count('recover:status:' + obs['status'].split(':')[0])
             if obs['status'] == 'done':
                 ck.count('recover:errors-reported' if obs.get('errors') else 'recover:clean-run')
@@ -1796,6 +1877,16 @@ def replay_case(ck, case, nproc):
     if case.get('part') == 'copy':
         run_copy_part(ck, [case])
     elif case.get('part') == 'recover':
+        f = corpus_recover_file(ck, case)
+        if f:
+            run_recover_part(ck, [f], nproc)
+    elif case.get('part') == 'tie':
+        source_tie(ck)
+
+
+def corpus_recover_file(ck, case):
+    """a recover case (corpus / replay) as a file entry of run_recover_part"""
+    if True:
         try:
             raw, undos = file_bytes(case['prog'], ck.tmp)
             parse_file(raw)
@@ -1804,7 +1895,9 @@ def replay_case(ck, case, nproc):
             if case.get('corpus') is None:
                 ck.violation('C17:source-build-raised', 'the data file of the replayed case cannot be built: %s: %s'
                              % (type(e).__name__, str(e)[:200]), case)
-            return
+            return None
+        if case.get('corpus'):
+            ck.count('corpus')
         dmg = dict(case['dmg'])
         if dmg['kind'] == 'trunc' and 'cutby' in dmg:
             dmg['n'] = len(raw) - dmg['cutby']
@@ -1816,9 +1909,7 @@ def replay_case(ck, case, nproc):
             recs = [r for t in parse_file(raw) for r in t['recs']]
             r = recs[dmg['recidx']]
             dmg['off'], dmg['fill'] = r['pos'] + 24, '00' * 8
-        run_recover_part(ck, [dict(prog=case['prog'], raw=raw, undos=undos, dmgs=[dmg], model_all=True)], nproc)
-    elif case.get('part') == 'tie':
-        source_tie(ck)
+        return dict(prog=case['prog'], raw=raw, undos=undos, dmgs=[dmg], model_all=True)
 
 
 def main(argv=None):
@@ -1834,20 +1925,23 @@ def main(argv=None):
         for c in cases:
             replay_case(ck, c, nproc)
         return finish(ck, {})
-    # corpus first
-    for c in load_corpus():
-        ck.count('corpus')
-        replay_case(ck, c, nproc)
+    # corpus first (batched with the generated cases of its part: one pool, one driver run)
+    corpus = load_corpus()
     # probed excluded point: MappingStorage is not a copy destination
     probe_mapping_destination(ck)
     # (a) copy matrix
-    ncopy = 40 if not ck.thorough else 500
-    cases = [gen_copy_case(ck.rng, i) for i in range(ncopy)]
-    run_copy_part(ck, cases)
+    ncopy = 48 if not ck.thorough else 512
+    cases = [c for c in corpus if c.get('part') == 'copy'] + [gen_copy_case(ck.rng, i) for i in range(ncopy)]
+    run_copy_part(ck, cases, nproc)
     # (b) recover
     nfiles = 20 if not ck.thorough else 200
     files = []
     nfail = 0
+    for c in corpus:
+        if c.get('part') == 'recover':
+            f = corpus_recover_file(ck, c)
+            if f:
+                files.append(f)
     for i in range(nfiles):
         big = (i % 10 == 9)
         prog = gen_recover_file(ck.rng, ck.tmp, big=big)
